@@ -510,6 +510,37 @@ func hangFailure(samples [][]string) Failure {
 	if len(samples) == 0 {
 		return f
 	}
+	// a (slow) unbounded recursion: the samples show long runs of the same frames; the outermost frames are elided
+	// from such dumps, so the samples cannot be aligned - name the recursion by its cycle instead
+	cyc := map[string]bool{}
+	nCyc := 0
+	for _, s := range samples {
+		inner := make([]string, 0, len(s))
+		for i := len(s) - 1; i >= 0; i-- {
+			inner = append(inner, s[i])
+		}
+		if cs := cycleSet(inner, false); cs != "" {
+			nCyc++
+			for _, fn := range strings.Split(cs, "+") {
+				cyc[fn] = true
+			}
+		}
+	}
+	if nCyc*2 > len(samples) {
+		var set []string
+		for fn := range cyc {
+			set = append(set, fn)
+		}
+		sort.Strings(set)
+		f.Fn = strings.Join(set, "+")
+		f.Class = "no termination"
+		for i := len(samples[0]) - 1; i >= 0 && len(f.Frames) < 24; i-- {
+			if samples[0][i] != elidedMark {
+				f.Frames = append(f.Frames, samples[0][i])
+			}
+		}
+		return f
+	}
 	common := append([]string(nil), samples[0]...)
 	for _, s := range samples[1:] {
 		n := 0
